@@ -1627,7 +1627,11 @@ fn forward_device_data(
         };
     }
 
-    let broker_topic_aliases = &mut connection.broker_topic_aliases;
+    // an alias stands for exactly one topic: only a filter without wildcards names one
+    let mut broker_topic_aliases = connection
+        .broker_topic_aliases
+        .as_mut()
+        .filter(|_| !protocol::has_wildcards(&request.filter));
     let mut topic_alias = broker_topic_aliases
         .as_ref()
         .and_then(|aliases| aliases.get_alias(&request.filter));
